@@ -782,6 +782,18 @@ pub fn to_lsp_edit(text: &str, range: std::ops::Range<usize>, repl: String) -> E
 }
 
 /// Edit with positions that overshoot: columns past the line end, lines past the last line.
+/// A small column on `line`, moved down to a UTF-16 boundary that is a character boundary
+/// (positions inside a surrogate pair are ill-formed and must not be generated).
+fn boundary_col(text: &str, line: u32, col: u32) -> u32 {
+    let off = offset_at(text, line, col);
+    let (l, c) = position_at(text, off);
+    if l == line {
+        c
+    } else {
+        0
+    }
+}
+
 pub fn overshoot_edit(rng: &mut Rng, text: &str) -> Edit {
     let n_lines = position_at(text, text.len()).0 + 1;
     let line = rng.below(n_lines as usize + 2) as u32;
@@ -795,7 +807,7 @@ pub fn overshoot_edit(rng: &mut Rng, text: &str) -> Edit {
         },
         1 => {
             // from a real column to past the end of the same line
-            let c = rng.below(6) as u32;
+            let c = boundary_col(text, line, rng.below(6) as u32);
             Edit {
                 range: Some([line, c, line, col_big]),
                 text: repl,
@@ -808,7 +820,7 @@ pub fn overshoot_edit(rng: &mut Rng, text: &str) -> Edit {
         },
         _ => {
             // from past-EOL on one line to a column on the next
-            let c = rng.below(4) as u32;
+            let c = boundary_col(text, line + 1, rng.below(4) as u32);
             Edit {
                 range: Some([line, col_big, line + 1, c]),
                 text: repl,
